@@ -18,7 +18,6 @@ from prompt_toolkit.formatted_text import StyleAndTextTuples
 from prompt_toolkit.key_binding.key_bindings import KeyBindings
 from prompt_toolkit.key_binding.key_processor import KeyPressEvent
 from prompt_toolkit.keys import Keys
-from prompt_toolkit.utils import get_cwidth
 
 if TYPE_CHECKING:
     from prompt_toolkit.application import Application
@@ -82,6 +81,24 @@ def display_completions_like_readline(event: E) -> None:
         _display_completions_like_readline(event.app, completions)
 
 
+def _show_control_characters(fragments: StyleAndTextTuples) -> StyleAndTextTuples:
+    """
+    Completion text that is printed above the prompt does not pass through
+    the screen, so nothing else makes control characters visible. Show them
+    the way the renderer does (caret or hex notation, see
+    `Char.display_mappings`). Explicit zero width escapes are kept.
+    """
+    from prompt_toolkit.layout.screen import Char
+
+    mappings = Char.display_mappings
+    return [
+        (style, text, *rest)
+        if "[ZeroWidthEscape]" in style
+        else (style, "".join(mappings.get(c, c) for c in text), *rest)
+        for style, text, *rest in fragments
+    ]
+
+
 def _display_completions_like_readline(
     app: Application[object], completions: list[Completion]
 ) -> asyncio.Task[None]:
@@ -90,8 +107,11 @@ def _display_completions_like_readline(
     This will ask for a confirmation if there are too many completions to fit
     on a single page and provide a paginator to walk through them.
     """
-    from prompt_toolkit.formatted_text import to_formatted_text
+    from prompt_toolkit.formatted_text import fragment_list_width, to_formatted_text
     from prompt_toolkit.shortcuts.prompt import create_confirm_session
+
+    def display_width(completion: Completion) -> int:
+        return fragment_list_width(_show_control_characters(completion.display))
 
     # Get terminal dimensions.
     term_size = app.output.get_size()
@@ -102,7 +122,7 @@ def _display_completions_like_readline(
     # completions. (Keep in mind that completions are displayed
     # alphabetically column-wise.)
     max_compl_width = min(
-        term_width, max(get_cwidth(c.display_text) for c in completions) + 1
+        term_width, max(display_width(c) for c in completions) + 1
     )
     column_count = max(1, term_width // max_compl_width)
     completions_per_page = column_count * (term_height - 1)
@@ -131,10 +151,14 @@ def _display_completions_like_readline(
                         completion.style or ""
                     )
 
-                    result.extend(to_formatted_text(completion.display, style=style))
+                    result.extend(
+                        _show_control_characters(
+                            to_formatted_text(completion.display, style=style)
+                        )
+                    )
 
                     # Add padding.
-                    padding = max_compl_width - get_cwidth(completion.display_text)
+                    padding = max_compl_width - display_width(completion)
                     result.append((completion.style, " " * padding))
                 except IndexError:
                     pass
